@@ -135,6 +135,8 @@ def pair_case(draw):
         # cli clause: several --set-query overrides of one operation; workers clause: configured credentials on a secured API
         # together with the ignored_auth check (whose probes strip them on purpose)
         "overrides": draw(st.booleans()),
+        # CLI pairs: the example database option in its spellings ("none" is matched without regard to case)
+        "database": draw(st.sampled_from([None, None, "none", "None", "NONE", ":memory:"])),
         "secured_auth": draw(st.integers(0, 2)) == 0,
     }
 
@@ -246,10 +248,12 @@ def check_cli(ctx: Ctx, inp) -> None:
             if inp.get("overrides"):
                 for c, v in zip("abcde", "12345"):
                     args += ["--set-query", f"ov_{c}={v}"]
+            if inp.get("database"):
+                args += ["--generation-database", inp["database"]]
             done = subprocess.run(args, cwd=workdir, env=env, capture_output=True, timeout=180)
             runs_.append((normalise(server.snapshot(), server.server.server_port), done.returncode, done.stdout.decode("utf-8", "replace")[-400:]))
         (a, ca, oa), (b, cb, ob) = runs_
-        ctx.case(nontrivial=inp if _nontrivial(inp, len(a)) else None, classes=[f"phases={'+'.join(inp['phases'])}", f"modes={'+'.join(inp['modes'])}", f"exit={ca}", "failure-found" if ca == 1 else "no-failure"], sample={"input": inp, "requests": len(a), "exit_codes": [ca, cb]})
+        ctx.case(nontrivial=inp if _nontrivial(inp, len(a)) else None, classes=[f"phases={'+'.join(inp['phases'])}", f"modes={'+'.join(inp['modes'])}", f"exit={ca}", "failure-found" if ca == 1 else "no-failure", f"database={inp.get('database')}"], sample={"input": inp, "requests": len(a), "exit_codes": [ca, cb]})
         if ca not in (0, 1) or cb not in (0, 1):
             ctx.disagree("cli:unexpected-exit-code", f"exit codes {ca}, {cb}: {oa if ca not in (0, 1) else ob}", input=inp)
             return
